@@ -25,7 +25,7 @@ type driveOpts struct {
 	sampleAbove int // truncate at every offset up to this size
 	truncSample int
 	random      int
-	capMutants  int // structure mutants are sampled down to this many
+	capMutants  int    // structure mutants are sampled down to this many
 	tag         string // added to the non-trivial-case key (e.g. the codec type)
 }
 
